@@ -534,7 +534,7 @@ pub fn run_wf(ctx: &mut Ctx) {
                 inner,
                 xml: vec![],
             };
-            let real_inner_key = kdbx::sha256(&[&s.stream_key]);
+            let real_inner_key = s.stream_key.clone(); // the stored stream key: `inner_keystream` applies KeePass's derivation
             let ks = kdbx::inner_keystream(&s.inner, &real_inner_key, 0, protected_len(&db) + 64).unwrap();
             let xml = {
                 let mut sf = Surface { rng: &mut rng, vary: true, iso_times: true, keystream: ks, ks_off: 0, out: String::new() };
